@@ -57,3 +57,37 @@ Theorem c06_replace_end_to_end : forall ps text repl T, Forall is_bytes ps -> is
     (forall x, In x m -> exists o, In o sc /\ inside o x).
 Proof. exact replace_correct. Qed.
 Print Assumptions c06_replace_end_to_end.
+
+(* ---------------------------------------------------------------------------------------------------------------
+   ReplaceWithMask.  [uchunks text] is the list of the text's runes as byte chunks, the way RuneCountInString / range
+   see them: each chunk is what utf8.DecodeRuneInString consumes next (an invalid byte is a chunk of its own);
+   [off cs j] is the byte offset of rune j; [mask_spec mask m' 0 cs] replaces chunk j by the mask bytes when some
+   rune-index scope of m' covers j ([ncov m' j]) and keeps it otherwise. *)
+From V Require Import Lib.Utf8 Proofs.TrieMask Proofs.TrieMaskTop.
+Local Close Scope Z_scope.
+
+Theorem c06_runes_of_text : forall s, concat (uchunks s) = s /\ Forall (fun c => c <> []) (uchunks s) /\
+  (s <> [] -> uchunks s = firstn (width s) s :: uchunks (skipn (width s) s)).
+Proof. exact uchunks_facts. Qed.
+Print Assumptions c06_runes_of_text.
+
+(* the loop of ReplaceWithMask over any disjoint increasing non-empty rune-aligned scopes: never out of range, rune for rune
+   the specification, rune count preserved *)
+Theorem c06_replace_mask_loop : forall text mask m', ngood 0 (length (uchunks text)) m' ->
+  mask_go text mask 0 (map (fun ab => (Z.of_nat (off (uchunks text) (fst ab)), Z.of_nat (off (uchunks text) (snd ab)))) m') []
+  = Some (concat (mask_spec mask m' 0 (uchunks text))) /\
+  length (mask_spec mask m' 0 (uchunks text)) = length (uchunks text).
+Proof. exact mask_go_aligned. Qed.
+Print Assumptions c06_replace_mask_loop.
+
+(* end to end: ReplaceWithMask never panics; the result is the text with exactly the runes that lie inside at least one
+   occurrence replaced by the mask rune (written as utf8.AppendRune writes it), every other rune unchanged; as many runes
+   as before *)
+Theorem c06_replace_mask_end_to_end : forall ps text mask T, Forall is_bytes ps -> is_bytes text -> built ps T ->
+  let cs := uchunks text in
+  exists m', replace_with_mask T text mask = Ok (concat (mask_spec (encode_rune mask) m' 0 cs)) /\
+    length (mask_spec (encode_rune mask) m' 0 cs) = length cs /\
+    (forall j, j < length cs ->
+       (ncov m' j = true <-> exists s e, occurrence ps text s e /\ (s <= Z.of_nat (off cs j))%Z /\ (Z.of_nat (off cs (S j)) <= e)%Z)).
+Proof. exact mask_correct. Qed.
+Print Assumptions c06_replace_mask_end_to_end.
